@@ -508,7 +508,7 @@ func init() {
 
 // HarnessStubCalendar validates the engine's time.Date stub against the real package time: the
 // stub is exact on valid civil dates and yields a different date on invalid ones, which is all
-// DPT_11001.IsValid observes. Natively this loops over every (year 1895..2105, month 0..255, day
+// DPT_11001.IsValid observes. Natively this loops over every (year 1985..2095, month 0..255, day
 // 0..255) plus century/leap corners and the corners of the uint16 year range; under the engine it is a no-op, so the
 // comparison runs as part of the native validation of this harness' sample path.
 func HarnessStubCalendar(a []int) {
@@ -527,7 +527,7 @@ func HarnessStubCalendar(a []int) {
 			}
 		}
 	}
-	for y := 1895; y <= 2105; y++ {
+	for y := 1985; y <= 2095; y++ {
 		check(y)
 	}
 	for _, y := range []int{0, 1, 4, 100, 400, 1600, 1700, 9999, 10000, 32767, 32768, 65535} {
